@@ -139,6 +139,11 @@ def run(tier):
         a = langlib.render(o["p"])
         variants = {"canonical": a}
         variants.update(styles(a))
+        # the indentation-only (offside) layout: no `in`, no parentheses around the spine, bodies indented
+        blk = langlib.render_block(o["p"])
+        variants["block-layout"] = blk
+        pre, body = blk[:len(langlib.PREAMBLE)], blk[len(langlib.PREAMBLE):]
+        variants["block-layout+comments"] = pre + "\n\n".join(l + " // c" for l in body.rstrip("\n").split("\n")) + "\n"
         for st, src in variants.items():
             pj.append({"id": len(pj), "src": src, "mode": "parse"})
             pmeta[len(pj) - 1] = (o, st)
@@ -178,10 +183,10 @@ def run(tier):
         "evaluations": len(res) + len(pres), "distinct_nontrivial": len([c for c in chains if len(c["c"]) >= 2]),
         "chains_declared_table": len(chains), "chains_builtin_table": len(bchains), "chains_agree": chain_ok,
         "roundtrip_programs": len(progs), "roundtrip_style_variants_equal": rt_ok, "exhaustive": True,
-        "rule": "all operator chains with up to %d operators over a table with two operators for every (precedence level in {5,6,7}, associativity) and all chains over the built-in primitive operators, enumerated by TLC together with their declarative grouping; Lang.tla programs in three concrete styles; non-trivial = chains with at least two operators" % maxops,
+        "rule": "all operator chains with up to %d operators over a table with two operators for every (precedence level in {5,6,7}, associativity) and all chains over the built-in primitive operators, enumerated by TLC together with their declarative grouping; Lang.tla programs in five concrete styles (canonical, redundant parentheses + block comments, line comments + blank lines, block layout, block layout + comments); non-trivial = chains with at least two operators" % maxops,
         "known_findings_hit": {k: v[1] for k, v in V.known_hits.items()},
     }, ["grouping is observed through evaluation (operators that build a string showing the tree / integer results with distinct prime operands)",
-        "the indentation-only (offside) layout style is exercised by the canonical rendering of match alternatives and by the repository files used for C10, not by a separate printer"],
+        "the indentation-only (offside) layout is exercised by the block-layout styles (spine of bindings / conditionals / matches / lambdas / recursive functions without `in` and parentheses) and by the repository files used for C10; layout.rs itself is not transcribed into TLA+"],
         time.time() - t0, len(V.violations))
     return rc
 
